@@ -85,6 +85,10 @@ func init() {
 		"\t\t\tcase '\\r':\n\t\t\t\te.w.WriteString(`\\r`)", "\t\t\tcase '\\r':\n\t\t\t\te.w.WriteString(`\\n`)", "string:escapes")
 	add("c10-json-del-dropped", "C10.json", encGo,
 		"\t\t\tdefault:\n\t\t\t\tconst hex", "\t\t\tcase 0x7f:\n\t\t\tdefault:\n\t\t\t\tconst hex", "string:dropped")
+	add("c10-json-bigint-fastpath", "C10.json", encGo,
+		"\t\te.write(v.Append(e.buf[:0], 10), e.opts.Colors.Number)\n", "\t\tif v.BitLen() <= 64 {\n\t\t\te.write(strconv.AppendUint(e.buf[:0], v.Uint64(), 10), e.opts.Colors.Number)\n\t\t} else {\n\t\t\te.write(v.Append(e.buf[:0], 10), e.opts.Colors.Number)\n\t\t}\n", "encode:one-printer")
+	add("c10-json-float-intpath", "C10.json", encGo,
+		"\tformat := byte('f')\n", "\tif f == math.Trunc(f) && math.Abs(f) < 1e21 {\n\t\te.write(strconv.AppendInt(e.buf[:0], int64(f), 10), e.opts.Colors.Number)\n\t\treturn\n\t}\n\tformat := byte('f')\n", "encodeFloat64:one-printer")
 	add("c10-json-int-narrowed", "C10.json", encGo,
 		"strconv.AppendInt(e.buf[:0], int64(v), 10)", "strconv.AppendInt(e.buf[:0], int64(int32(v)), 10)", "int:base10")
 	add("c10-json-array-comma-late", "C10.json", encGo,
